@@ -257,6 +257,60 @@ fn history_case(rng: &mut Rng) -> Option<Case> {
     Some(Case { text, expanded: Some(exp), use_span: last_use, kind: "use-history" })
 }
 
+/// aftermath of refused uses: the same context first meets programs whose macro uses are refused in every way there is
+/// (recursion, unknown macro, invalid expansion, a chain nested too deep), is clear()ed, and must then expand an
+/// ordinary program exactly like a fresh context (macro names m0, m1, ... occur on both sides)
+fn aftermath(rep: &Report, n: usize, seed: u64) {
+    let mut refused: Vec<String> = error_cases().into_iter().map(|c| c.text).collect();
+    for d in [129usize, 130, 131, 200] {
+        // chains named like the generated libraries' macros
+        let mut t = String::from("macro m0(p) -> mov ax,p <-\n");
+        for i in 1..=d {
+            t.push_str(&format!("macro m{}(p) -> m{} (p) <-\n", i, i - 1));
+        }
+        t.push_str(&format!("start:\nm{}(7)\n", d));
+        refused.push(t);
+    }
+    let refused = &refused;
+    par_for(n, 2, |i| {
+        let mut rng = if i < 60 { Rng::new(0xC13A).fork(i as u64) } else { Rng::new(seed).fork(0xC13A_0000 + i as u64) };
+        let c = match if i % 3 == 0 { history_case(&mut rng) } else { build_case(&mut rng) } {
+            Some(c) => c,
+            None => return,
+        };
+        let exp = match &c.expanded {
+            Some(e) => e.clone(),
+            None => return,
+        };
+        let mut sess = crate::asm::Session::new();
+        let mut hist = Vec::new();
+        for _ in 0..1 + rng.below(3) {
+            let k = if i < refused.len() * 2 { (i / 2) % refused.len() } else { rng.below(refused.len()) };
+            let r = sess.parse(&refused[k]);
+            hist.push(format!("refused program {} -> {}", k, if r.is_ok() { "accepted (!)" } else { "refused" }));
+            sess.clear();
+        }
+        rep.eval(1);
+        rep.count("macro programs assembled on a context that met refused uses before (after clear)", 1);
+        let used = sess.parse(&c.text).map(|_| ());
+        let a = sess.finish();
+        let fresh = assemble(&exp);
+        let bad = match (&used, &fresh) {
+            (Ok(()), Ok(b)) => a.code != b.code || a.data != b.data,
+            (Err(_), Ok(_)) => true,
+            _ => false,
+        };
+        if bad {
+            rep.fail(Failure {
+                sig: format!("macro:after-refused-uses:{}", if used.is_err() { "valid-use-rejected" } else { "differs-from-expansion" }),
+                what: "C13: after refused macro uses on the same (cleared) context, an ordinary macro use no longer equals its hand expansion".into(),
+                witness: format!("{{\"kind\": \"src\", \"history\": {:?}, \"source\": {}, \"expanded\": {}, \"result\": {}}}", hist, json_str(&c.text), json_str(&exp), json_str(&format!("{:?}", used.as_ref().err()))),
+                core_item: if i < 60 { Some(format!("after{}", i)) } else { None },
+            });
+        }
+    });
+}
+
 fn error_cases() -> Vec<Case> {
     let mut v = Vec::new();
     let mk = |defs: &str, use_txt: &str, kind: &'static str| {
@@ -431,6 +485,7 @@ pub fn run(rep: &Report) {
             judge(rep, &c, None, 1000 + i);
         }
     });
+    aftermath(rep, if t { 20_000 } else { 300 }, rep.seed);
     let nh = if t { 30_000 } else { 500 };
     par_for(nh, 4, |i| {
         let mut rng = if i < 100 { Rng::new(0xC13B).fork(i as u64) } else { Rng::new(seed).fork(0xC13B_0000 + i as u64) };
